@@ -49,6 +49,28 @@ CLAIMS.update({
    technique="Lean 4 proof by mutual structural induction over record trees + model-on-implementation-tree correspondence + report judge",
    ref="DESIGN.md §5 C09"),
 })
+CLAIMS.update({
+ "C07": dict(
+   text="Every renderer reads one record tree / the FileReport derived from it. Lean theorems: the partitions extracted by the summary table and by the structured report coincide (rule names by status, same file status), the JUnit mark is a function of the file status, SARIF has one result per reported failing check of FAIL reports only, and the exit code of one evaluated pair is a function of the file status in every mode. Tied by the full cross product on the real binary: -S all|pass|fail|skip|none, -v, -p, -o json/yaml with and without --structured, junit, sarif, stdin, --payload (plain and structured) and the library call, whose partitions, statuses and exit codes must coincide; JSON/YAML/XML are read back and compared. Partial: serializer well-formedness (serde_json, serde_yaml, quick_xml) is only read back, not proved.",
+   note="Partial (read-back of serializers; console detail lines are uninterpreted). YAML is re-read with PyYAML (1.1) under a tolerant scalar comparison.",
+   technique="Lean 4 proof over the report model + cross-product judge on the real binary and the library entry point",
+   ref="DESIGN.md §5 C07"),
+ "C12": dict(
+   text="In the model a batch is a map of runFile over the pairs and runFile starts from St.init where the Rust loops call root_scope; theorems: leftover state is not an input, every pair of a batch equals that pair alone, permuting files permutes results, the batch fails iff a pair fails (with C06). The weight is on the tie: batches of 1..3 rules files sharing variable, rule and key-capture names x 1..4 documents on the real binary, structured and plain, every order of -r/-d, directories with -a and -m (controlled mtimes), --payload lists, each compared with the union of the pairs validated alone.",
+   note="Partial: the isolation theorems hold by construction of the model; what ties them to the code is the batch-vs-singleton comparison (walkdir ordering, file system and mtimes are runtime).",
+   technique="Lean 4 theorems on the batch model + batch-vs-singleton judge on the real binary",
+   ref="DESIGN.md §5 C12"),
+ "C16": dict(
+   text="Lean model of get_by_rules / get_status_result / the classification of a test case, with theorems for any number of definitions of a rule: an expectation is met iff some definition has the expected non-SKIP status, or SKIP is expected and all are SKIP; rules without an expectation are never failures; the statuses grouped under a name are exactly the top-level rule records of the evaluator's tree with that name, in order. The real `test` command (plain, json, yaml, junit; single file and --dir) is compared with the statuses `validate` assigns to the same rules on the same inputs, with the Lean classification, and across formats.",
+   note="Trusted: test inputs are loaded through serde_yaml, validate inputs through the library loader; agreement on JSON-compatible scalars is C11.",
+   technique="Lean 4 proof of the expectation-matching function + test-vs-validate and cross-format judge on the real binary",
+   ref="DESIGN.md §5 C16"),
+ "C17": dict(
+   text="Lean mirror of PathAwareValue::merge and of the parameter-file fold with theorems for all documents: merge succeeds iff the top-level key sets are disjoint, otherwise it is the MultipleValues error (never a silent choice); on success the result is the old entries followed by the incoming ones (nothing lost, nothing overridden, keys and values aligned); non-structs are an error. Tied by splitting documents at random into 1..3 parameter files + data (disjoint and overlapping), plain and structured, on the real binary: verdicts equal those on the pre-merged document, for every order of the parameter files, and equal the Lean merge+evaluator model; conflicts must fail.",
+   note="A genuine defect was repaired earlier (81fec31: structured mode panicked on a conflict). Order independence is judged, not proved (top-level key order only matters to programs that enumerate the root).",
+   technique="Lean 4 proof of the merge function + split/pre-merged/reordered judge on the real binary + model correspondence",
+   ref="DESIGN.md §5 C17"),
+})
 REASONS = {}
 def main():
     checks = []
